@@ -340,6 +340,7 @@ def _run_once(acc, side, actions, origin, tmp, forced):
 
     try:
         no_resend_expected_from = None
+        logout_sync = False
         for i, a in enumerate(actions):
             k = a[0]
             if k == "send":
@@ -361,7 +362,25 @@ def _run_once(acc, side, actions, origin, tmp, forced):
             elif k == "reconnect":
                 if d.can_reconnect():
                     d.reconnect()
+            elif k == "logout":
+                # the graceful end of a session: a Logout by one side, read by the other
+                if d.connected(a[1]) and d.link_alive():
+                    c_, s_ = d.ep["c"], d.ep["s"]
+                    logout_sync = (c_.connection_state == ConnectionState.ACTIVE and s_.connection_state == ConnectionState.ACTIVE
+                                   and not (d.fifo("c") or d.fifo("s"))
+                                   and c_._session.next_num_in == s_._session.next_num_out and c_._session.next_num_out == s_._session.next_num_in)
+                    d.logout(a[1])
+                    while d.can_deliver(a[1]):
+                        d.deliver(a[1])
+                    r.flags.add("logout-exchange")
             elif k == "graceful":
+                if logout_sync and not any(isinstance(x, (bytes, bytearray)) for q in ("c", "s") for x in d.fifo(q)):
+                    # both sides were in sync, one said Logout, the other read it: nothing is lost, whoever is restarted now
+                    r.graceful(bad)
+                    no_resend_expected_from = len(d.w.links)
+                    logout_sync = False
+                    r.flags.add("graceful-after-logout")
+                    continue
                 if d.ep[side]._socket_writer is not None and d.w.link is not None and (d.fifo("c") or d.fifo("s")):
                     r.flags.add("graceful-with-frames-in-flight")
                 in_sync = r.graceful(bad)
@@ -451,6 +470,10 @@ def fixed_histories():
         H.append((side, base + [("testreq", o), ("deliver", o), ("deliver", side), ("graceful",)]))
         H.append((side, base + [("testreq", side), ("deliver", side), ("deliver", o), ("testreq", o), ("deliver", o), ("kill", "deliver", 0)]))
         H.append((side, lossy + [("graceful",)]))
+        # the session is ended with a Logout (by the restarted side, by the other side), then the endpoint is restarted
+        H.append((side, base + [("logout", side), ("graceful",)]))
+        H.append((side, base + [("logout", o), ("graceful",)]))
+        H.append((side, base + [("send", o), ("deliver", o), ("send", side), ("deliver", side), ("logout", o), ("graceful",)]))
         H.append((side, base + [("graceful",), ("reconnect",), ("deliver", "c"), ("deliver", "s"), ("send", "c"), ("send", "s"), ("graceful",)]))
         H.append((side, base + [("send", o), ("send", o), ("deliver", o), ("kill", "deliver", 0), ("reconnect",), ("deliver", "c"), ("deliver", "s"), ("kill", "send", 0)]))
         H.append((side, base + [("kill", "send", 0), ("reconnect",), ("deliver", "c"), ("deliver", "s"), ("deliver", "c"), ("deliver", "s"), ("send", side), ("kill", "send", 0)]))
